@@ -9,7 +9,7 @@ import tlc
 from base import Ctx
 from common import SPEC, MachineryError, cps, text
 
-CLAUSES = {"accepted-but-invalid", "rejected-but-valid"}
+CLAUSES = {"accepted-but-invalid", "rejected-but-valid", "object-answers-differently-when-asked-again"}
 
 
 def model(ctx: Ctx) -> None:
@@ -54,8 +54,9 @@ def run(ctx: Ctx) -> dict:
             ops.append({"op": "iban.new", "t": cps(iban), "vb": False, "err": "none"})
             for p in range(2, len(iban)):
                 for alt in gen.same_kind_alternatives(iban[p]):
-                    ops.append({"op": "iban.new", "t": cps(iban[:p] + alt + iban[p + 1:]), "vb": False,
-                                "err": "substitute"})
+                    # through the constructor, validate() and is_valid (the last two ask the object twice)
+                    ops.append({"op": ("iban.new", "iban.new", "iban.validate", "iban.is_valid")[(p + ord(alt)) % 4],
+                                "t": cps(iban[:p] + alt + iban[p + 1:]), "vb": False, "err": "substitute"})
             for p in range(2, len(iban) - 1):
                 a, b = iban[p], iban[p + 1]
                 if a != b and ((a.isdigit() and b.isdigit()) or (a.isalpha() and b.isalpha())):
@@ -64,7 +65,8 @@ def run(ctx: Ctx) -> dict:
     events = calls.execute(ctx, ops, "c03")
     mism = calls.validate(ctx, "TraceCalls", events, env, "c03", per_shard=30000)
     calls.report(ctx, mism, CLAUSES)
-    slipped = [e for e in events if e["err"] != "none" and e["out"]["k"] == "ok"]
+    slipped = [e for e in events if e["err"] != "none" and e["out"]["k"] == "ok"
+               and (e["op"] != "iban.is_valid" or e["out"].get("ret"))]
     if slipped and not ctx.violations:
         # the library accepted a single-error text and TLC agreed it is valid: the
         # specification-level theorem (MC_Mod97Errors) would be contradicted
